@@ -2,6 +2,8 @@
 import NB.Wire
 import NB.Model.Div
 import NB.Model.AsmParams
+import NB.Model.Scalar
+import NB.Model.ScalarD
 namespace NB.Drv.C03
 open NB NB.Wire
 
@@ -33,6 +35,56 @@ def ceilDivNat (a b : Nat) : Nat := if a % b = 0 then a / b else a / b + 1
 def ceilDivInt (a b : Int) : Int := - (Int.fdiv (-a) b)
 
 def pad (l : List Nat) (n : Nat) : List Nat := l ++ List.replicate (n - l.length) 0
+
+/-! #### api-coverage: scalar division forms (`<type>:<decimal>` tokens), modelled by the digit-level leaves of
+     NB.Model.ScalarD (promotion cast, then the leaf impl as written) -/
+
+def styOfName (s : String) : Option STy :=
+  if s == "u8" then some .u8 else if s == "u16" then some .u16 else if s == "u32" then some .u32
+  else if s == "u64" then some .u64 else if s == "u128" then some .u128 else if s == "usize" then some .usize
+  else if s == "i8" then some .i8 else if s == "i16" then some .i16 else if s == "i32" then some .i32
+  else if s == "i64" then some .i64 else if s == "i128" then some .i128 else if s == "isize" then some .isize
+  else none
+
+def parseScalarTok (s : String) : Option (STy × Int) :=
+  match s.splitOn ":" with
+  | [t, v] => do
+    let ty ← styOfName t
+    let x ← parseInt v
+    if ty.InRange x then pure (ty, x) else none
+  | _ => none
+
+/-- (operator, position, dividend-is-the-scalar) of a scalar op name -/
+def scalarOpOf : String → Option (AOp × SPos × Bool)
+  | "div_s" => some (.div, .bigScalar, false) | "rem_s" => some (.rem, .bigScalar, false)
+  | "s_div" => some (.div, .scalarBig, true) | "s_rem" => some (.rem, .scalarBig, true)
+  | "div_assign_s" => some (.div, .assign, false) | "rem_assign_s" => some (.rem, .assign, false)
+  | _ => none
+
+def scalarHandle (op : String) (args : List String) : Option (String × String) :=
+  match op, args with
+  | "s.rem_assign_u", [tv, a] => do
+    let (t, s) ← parseScalarTok tv; let a ← parseLimbs a
+    pure (showExcept showBigInt ((SD.dRemAssignScalar t s a).map BigInt.ofInt),
+          si (oI (val a) (Int.tmod s (val a))))
+  | _, [p, q] =>
+    if op.startsWith "u." then do
+      let (aop, pos, sLeft) ← scalarOpOf (op.drop 2).toString
+      let (a, tv) := if sLeft then (q, p) else (p, q)
+      let a ← parseLimbs a; let (t, s) ← parseScalarTok tv
+      if t.signed then none else
+      let x : Nat := if sLeft then s.toNat else val a
+      let y : Nat := if sLeft then val a else s.toNat
+      pure (su (SD.uScalarForm P aop pos t a s), su (oU y (if aop == .div then x / y else x % y)))
+    else if op.startsWith "i." then do
+      let (aop, pos, sLeft) ← scalarOpOf (op.drop 2).toString
+      let (a, tv) := if sLeft then (q, p) else (p, q)
+      let a ← parseBigInt a; let (t, s) ← parseScalarTok tv
+      let x : Int := if sLeft then s else a.val
+      let y : Int := if sLeft then a.val else s
+      pure (si (SD.iScalarForm P aop pos t a s), si (oI y (if aop == .div then Int.tdiv x y else Int.tmod x y)))
+    else none
+  | _, _ => none
 
 def handle (op : String) (args : List String) : Option (String × String) :=
   match op, args with
@@ -118,6 +170,16 @@ def handle (op : String) (args : List String) : Option (String × String) :=
     let a ← parseBigInt a; let b ← parseBigInt b
     pure (showChecked showPairI (BigInt.checkedDivRemEuclid P a b),
           showChecked showPairI (oC (b.val == 0) (BigInt.ofInt (a.val / b.val), BigInt.ofInt (a.val % b.val))))
+  -- api-coverage: inherent `BigInt::checked_div` (`if v.is_zero() { return None } Some(self / v)`: the same
+  -- body as the trait impl, modelled by `BigInt.checkedDiv`)
+  | "i.checked_div_m", [a, b] => do
+    let a ← parseBigInt a; let b ← parseBigInt b
+    pure (showChecked showBigInt (BigInt.checkedDiv P a b),
+          showChecked showBigInt (oC (b.val == 0) (BigInt.ofInt (Int.tdiv a.val b.val))))
+  -- api-coverage: scalar division forms
+  | "s.rem_assign_u", [p, q] | "u.div_s", [p, q] | "u.rem_s", [p, q] | "u.s_div", [p, q] | "u.s_rem", [p, q]
+  | "u.div_assign_s", [p, q] | "u.rem_assign_s", [p, q] | "i.div_s", [p, q] | "i.rem_s", [p, q] | "i.s_div", [p, q]
+  | "i.s_rem", [p, q] | "i.div_assign_s", [p, q] | "i.rem_assign_s", [p, q] => scalarHandle op [p, q]
   -- internal hooks on raw slices
   | "raw.div_rem_core", [a, b] => do
     let a ← parseLimbs a; let b ← parseLimbs b
